@@ -83,6 +83,13 @@ UNIVERSE = [
     # negative values (appended: other checks address the messages above by position)
     _u('2', True, 'wl_surface', 4, 'damage', [['int', -5], ['int', -10], ['int', 2], ['int', 3]]),
     _u('1', False, 'wl_pointer', 6, 'motion', [['int', 103], ['fixed', -1280], ['fixed', 0]]),
+    # strings that differ only in the blanks inside them
+    _u('1', True, 'xdg_toplevel', 13, 'set_title', [['str', 'a  b']]),
+    _u('1', True, 'xdg_toplevel', 13, 'set_title', [['str', 'a b']]),
+    # a typed nil, then a nil whose interface no description gives (an interface the tool does not know)
+    _u('2', True, 'wl_surface', 4, 'attach', [['nil'], ['int', 0], ['int', 0]]),
+    _u('2', True, 'wl_registry', 2, 'bind', [['int', 9], ['str', 'zz_u'], ['int', 1], ['new', None, 7]]),
+    _u('2', True, 'zz_u', 7, 'poke', [['nil'], ['int', 5]]),
 ]
 
 
@@ -395,6 +402,9 @@ ARG_ATOMS = [
     ('(["wl_seat", wl_seat])', argl([a_or(a_str('wl_seat'), a_word('wl_seat'))])),
     ('([wl_seat, "wl_seat"])', argl([a_or(a_word('wl_seat'), a_str('wl_seat'))])),
     ('(pres*ssed)', argl([a_word('pres*ssed')])),
+    ('("a  b")', argl([a_str('a  b')])),
+    ('("a b")', argl([a_str('a b')])),
+    ('(title="a  b")', argl([a_and(a_named('title'), a_str('a  b'))])),
 ]
 
 
